@@ -16,7 +16,7 @@ from . import coqlit as L
 from .core import Relation, err_kind
 
 PROP = "C07"
-CLAIMED = False
+CLAIMED = True
 COQ_MODULES = ["C07_Check", "C07_Proofs"]
 PROPERTY_MODULE = "C07_Property"
 ALLOWED_AXIOMS = []
